@@ -210,11 +210,10 @@ def r4(run, db):
             on_expired = any(true_edge(f, x) and f.edge_dominates(true_edge(f, x), c.site) for x in exp)
             dom_stat = STAT_REASON.get(stats[0].callee.split("::")[-1]) if stats else None
             shut = bool(re.search(r"post_stop", f.id))
-            for s_ in f.calls():
-                if s_.matches(r"PartialEq>::eq$|PartialEq::eq$") and "DrainState" in (s_.self_ty or ""):
-                    fe = false_edge(f, s_)
-                    if fe and f.edge_dominates(fe, c.site):
-                        shut = True
+            for t_ in enum_const_tests(f, "DrainState"):
+                # "not NotDraining" in either spelling (`== NotDraining` false, `!= NotDraining` true)
+                if t_["variant"] == "NotDraining" and t_["ne_edge"] and f.edge_dominates(t_["ne_edge"], c.site):
+                    shut = True
             ctx = set()
             if on_expired or dom_stat == "TtlExpired":
                 ctx.add("TtlExpired")
